@@ -5,6 +5,7 @@ real interpreter with the generic `run` op, every pipeline value consumed twice,
 compiled model (`xmodel gen …`), (c) through an independent oracle: the same pipeline over plain Python
 lists / itertools, which also counts the calls of the callbacks a lazy evaluation needs."""
 import itertools
+import random as _random
 from .common import *
 
 I64_MIN, I64_MAX = -2**63, 2**63 - 1
@@ -523,12 +524,49 @@ def extend(rng, p, errmode, depth):
 
 
 def gen_pipe(rng, errmode, nops, want_int=False):
+    """a random pipeline; `recipe` records the PRNG state before every choice, so that a sub-sequence of
+    the operations can be rebuilt exactly (see `rebuild`)"""
+    st = rng.getstate()
     p = gen_source(rng, errmode)
+    recipe = [("src", st)]
     for _ in range(nops):
-        p = extend(rng, p, errmode, nops)
+        st = rng.getstate()
+        q = extend(rng, p, errmode, nops)
+        recipe.append(("op", st, p.ty, p.inf, nops))
+        p = q
     if want_int and p.ty != INT:
         x, tok, f = gen_fn(rng, p.ty, errmode)
         p = p.then("map", f"{p.src}.map({x})", tok, o_map(p.orc, f), ty=INT)
+    p.recipe, p.errmode = recipe, errmode
+    return p
+
+
+def final_take(p, n):
+    return p.then("take", f"{p.src}.take({n})", f"take:{n}", o_slice(p.orc, 0, n), inf=False)
+
+
+def rebuild(recipe, errmode, keep):
+    """the pipeline made of the recipe's steps listed in `keep` (always with the source), or None when the
+    remaining operations do not fit together (element type / finiteness they were generated for)"""
+    p = None
+    for i, step in enumerate(recipe):
+        if i not in keep:
+            continue
+        r = _random.Random()
+        if step[0] == "src":
+            r.setstate(step[1])
+            p = gen_source(r, errmode)
+        elif step[0] == "op":
+            _, st, ty, inf, depth = step
+            if p is None or p.ty != ty or p.inf != inf:
+                return None
+            r.setstate(st)
+            p = extend(r, p, errmode, depth)
+        elif step[0] == "take":
+            p = final_take(p, step[1])
+    if p is None or p.inf:
+        return None
+    p.recipe, p.errmode = recipe, errmode
     return p
 
 
@@ -537,7 +575,9 @@ def gen_case(rng, max_ops):
     p = gen_pipe(rng, errmode, rng.randint(1, max_ops))
     if p.inf:
         n = rng.choice([0, 1, 3, 5, 8, 13])
-        p = p.then("take", f"{p.src}.take({n})", f"take:{n}", o_slice(p.orc, 0, n), inf=False)
+        recipe = p.recipe + [("take", n)]
+        p = final_take(p, n)
+        p.recipe, p.errmode = recipe, errmode
     k = rng.random()
     if k < 0.7:
         cons, arg, call = "toarray", None, "to_array()"
@@ -623,8 +663,30 @@ def verdict(case, res):
     return None
 
 
-def shrink(rng_seed, case, kind):
-    """greedy: drop trailing / inner tokens is not type safe in general, so only regenerate shorter prefixes"""
+def shrink(case, kind, evaluate):
+    """greedy delta debugging over the operations: drop one operation at a time while the same kind of
+    failure remains; `evaluate(case)` -> (kind or None, result).  Returns the smallest failing case found."""
+    p = case[0]
+    recipe, errmode = getattr(p, "recipe", None), getattr(p, "errmode", False)
+    if not recipe:
+        return case
+    cur = list(range(len(recipe)))
+    budget = 60
+    improved = True
+    while improved and budget > 0:
+        improved = False
+        for i in reversed(cur[1:]):           # the source stays
+            cand = [j for j in cur if j != i]
+            q = rebuild(recipe, errmode, cand)
+            if q is None:
+                continue
+            c2 = (q,) + tuple(case[1:])
+            budget -= 1
+            if evaluate(c2) == kind:
+                cur, case, improved = cand, c2, True
+                break
+            if budget <= 0:
+                break
     return case
 
 
@@ -663,6 +725,19 @@ def run(chk):
         if v is None:
             continue
         kind, text = v
+        if i >= len(fixed) and kind != "harness":
+            def evaluate(c2):
+                v2 = verdict(c2, run_cases([c2])[0])
+                return v2[0] if v2 else None
+            small = shrink(case, kind, evaluate)
+            if small is not case:
+                case = small
+                res = run_cases([case])[0]
+                v2 = verdict(case, res)
+                if v2:
+                    kind, text = v2
+                p, cons, arg, call = case
+                chk.count("shrunk")
         sig = "+".join(sorted(set(p.ops)))
         src = f"let g = {p.src}; let a = g.{call}; let b = g.{call};"
         replay = {"src": src, "get": ["a", "b"], "limits": {"search": SEARCH, "ud_calls": UD_CALLS},
